@@ -164,6 +164,16 @@ def classify_specials(ctx, p, h, specials, ce):
                               ('truthy', '(pawn_attacks(square_bb(position.enpassant_square()),!(position.color()))&position.pieces(position.color(),PAWN))', True)})
             g2 = frozenset(_inline_atoms(h, guard_facts(h, n)))
             ok = idx == 'file(position.enpassant_square())' and g2 == want and len(tv) == 8
+            if not ok and idx == 'file(position.enpassant_square())':
+                # another spelling of the capturer test: raw shifts must keep the board edges (no wrap-around), else unrecognised
+                wraps = unmasked_shifts(h, [c for c, t in guard_facts(h, n)], p)
+                if wraps:
+                    ctx.ob('C18.R2.enpassant-edges', 'hash', False,
+                           'the capturer squares are computed with a shift that wraps around the board edge (%s): an e.p. square on the a- or '
+                           'h-file finds a "capturer" on the opposite edge' % ', '.join(wraps), site=h.loc(n))
+                elif g2 != want and ('in', 'position.enpassant_square()', frozenset(range(64))) in g2 and len(g2) == 2 and \
+                        not any('pawn_attacks' in str(a) for a in g2):
+                    raise AnalysisBroken('C18: the capturer test of the e.p. term is written in a form the rule does not know: %s' % sorted(map(str, g2)))
             ctx.ob('C18.R2.enpassant', 'hash', ok,
                    'the e.p. constant of the e.p. file is XORed exactly when an e.p. square is set and a pawn of the side to move attacks it',
                    site=h.loc(n), detail={'guards': sorted(map(str, g2)), 'index': idx})
@@ -196,6 +206,46 @@ def classify_specials(ctx, p, h, specials, ce):
     if not need <= set(use):
         return None
     return use
+
+
+def unmasked_shifts(h, conds, p):
+    """raw bitboard shifts by 1/7/9 (following single-definition locals) whose operand is not masked against the edge they would cross"""
+    from rules.effects import single_def
+    fa, fh = p.val(E + 'fileA_bb'), p.val(E + 'fileH_bb')
+    M = (1 << 64) - 1
+    need = {('<<', 1): fh, ('<<', 9): fh, ('>>', 7): fh, ('>>', 1): fa, ('>>', 9): fa, ('<<', 7): fa}
+    out = []
+    seen = set()
+
+    def visit(n):
+        n = _unbool(n)
+        if n is None or n['i'] in seen:
+            return
+        seen.add(n['i'])
+        r = n.get('ref')
+        if r and r['k'] == 'Local':
+            d = single_def(h, r['id'])
+            if d is not None:
+                visit(d)
+            return
+        if n['k'] == 'BinaryOperator' and n.get('op') in ('<<', '>>'):
+            amt = const_of(_unbool(kids(n)[1]))
+            key = (n['op'], amt)
+            if key in need:
+                a = _unbool(kids(n)[0])
+                masked = False
+                if a['k'] == 'BinaryOperator' and a.get('op') == '&':
+                    for side in kids(a):
+                        cv = _unbool(side).get('cv')
+                        if cv is not None and (cv & need[key]) == 0:
+                            masked = True
+                if not masked:
+                    out.append('%s %d at line %d' % (n['op'], amt, n.get('l', 0)))
+        for c in kids(n):
+            visit(c)
+    for c in conds:
+        visit(c)
+    return out
 
 
 def _inline_atoms(h, facts):
